@@ -49,6 +49,18 @@ def big_program(nrec, size):
     return ('\n'.join(lines) + '\n').encode()
 
 
+def stored_program(nrec, size):
+    """the same amount of output from packet SEQUENCES that are bound by let and emitted through their names (also twice, and through
+    a second name), and from single stored packets"""
+    lines = ['import ipv4;', 'import eth;', 'import text;', 'let a = "|%s|";' % ('ab' * 64), 'let b = text::concat(%s);' % ', '.join(['a'] * max(1, size // 64)),
+             'let f = ipv4::tcp::flow(1.2.3.4:5, 6.7.8.9:80);', 'let hs = f.open();', 'hs;']
+    for k in range(nrec):
+        lines.append('let m%d = f.%s_message(b);' % (k, 'client' if k % 2 else 'server')); lines.append('m%d;' % k)
+        if k % 3 == 0: lines.append('let n%d = m%d;' % (k, k)); lines.append('n%d;' % k)
+        if k % 4 == 1: lines.append('let p%d = eth::frame("|000000000001|", "|000000000002|", b);' % k); lines.append('p%d;' % k)
+    return ('\n'.join(lines) + '\n').encode()
+
+
 def campaign(c):
     c.rule = RULE
     lib = Lib()
@@ -88,6 +100,14 @@ def campaign(c):
         for j in range(nrec): ks.update([24 + j * rec - 1, 24 + j * rec, 24 + j * rec + 1, 24 + j * rec + 16, 24 + j * rec + rec // 2, 24 + (j + 1) * rec - 1])
         for k in sorted(x for x in ks if 0 <= x <= n + 1):
             fault_run(c, src, k, n, 'buffers')
+    for nrec, size in ([(5, 3000)] if c.quick else [(5, 3000), (12, 1400), (3, 20000)]):
+        src = stored_program(nrec, size)
+        n = len(core.run_cli(src)['pcap'])
+        ks = set([0, 23, 24, 25, n - 1, n])
+        for b in range(8192, n + 8192, 8192): ks.update([b - 1, b, b + 1])
+        ks.update(range(0, n, max(1, n // (30 if c.quick else 250))))
+        for k in sorted(x for x in ks if 0 <= x <= n + 1):
+            fault_run(c, src, k, n, 'buffers-stored')
     # other faults
     src = b'import eth;\neth::frame("|000000000001|", "|000000000002|", "payload");\n'
     d = tempfile.mkdtemp(prefix='rsio')
